@@ -12,7 +12,8 @@ WS_CHARS = [" ", "\t", " ", " ", "　", "\x0b", "\x0c", "\x1c", "\x85", " "
 TEXT_POOL = ["a", "some text", "x <a> y", "<b>", "é😀", "tab\there", "| pipe", "@at", "# hash", "\\n", "\\|",
              "trailing ", " leading", "Given ", "Feature:", '"""', "```", "*", "<a> <a>", "\ud800", "\x00", "a\rb",
              "$1 \\1", "(", "a.b", "", "::", "Scenario: x", "Examples:", "|a|b|",
-             '\\"\\"\\"', "\\`\\`\\`", "x \\`\\`\\` y \\`\\`\\`", 'q \\"\\"\\" r \\"\\"\\"', "\\`\\`\\`python"]
+             '\\"\\"\\"', "\\`\\`\\`", "x \\`\\`\\` y \\`\\`\\`", 'q \\"\\"\\" r \\"\\"\\"', "\\`\\`\\`python",
+             "{", "}", "{0}", "{line}", "%s", "%(a)s", "100%", "${x}", "{{x}}"]
 
 
 def dialect_names():
@@ -246,6 +247,8 @@ NOISE_LINES = [
     "|", "| |", "\\", "@", "#", "Examples:", "Scenarios: s", "Scenario Template: t", "Example: e",
     "  Given <a> and <b>", "  | a \\n| b\\|c |", "Rule:", "Background:", "\ud800", "\x00", "a\rb", "\x0c", "\x85Given x",
     "Ability: x", "Business Need: y", "    Given a\r", "  Scenario: s\r", "\r", "@a#b", "@a #b", "@a @b#c d",
+    # text that is dangerous inside format strings / templates / patterns (it ends up quoted in messages)
+    "{", "}", "{}", "{0}", "{line} {column}", "}{", "%s", "%(a)s %d", "100%", "${x}", "$1", "\\g<1>", "\\1", "{{x}}", "a {b c",
 ]
 
 
